@@ -682,6 +682,28 @@ def abs_(x):
     return abs(lift(x))
 
 
+def count_nonzero(a):
+    a = asarray(a)
+    if a.ndim != 1:
+        raise OutOfSubset('count_nonzero rank %d' % a.ndim)
+    s_ = a.snapshot()
+    mask = SArr(Cell((lambda i: s_.at(i)) if s_.kind == 'bool' else (lambda i: s_.at(i) != 0), s_.shape, 'bool'))
+    k, sel, rank, m = mask.select()
+    cur().libcall('np.count_nonzero', dict(arr=s_, mask=mask, res=SInt(k)))
+    return SInt(k)
+
+
+def diag(v):
+    a = asarray(v).snapshot()
+    if a.ndim == 1:
+        n = a.shape[0]
+        zero = z3.RealVal(0) if a.kind == 'real' else z3.IntVal(0)
+        return SArr(Cell(lambda i, j: z3.If(i == j, a.at(i), zero), (n, n), a.kind))
+    if a.ndim == 2:
+        return SArr(Cell(lambda i: a.at(i, i), (a.shape[0],), a.kind))
+    raise OutOfSubset('diag rank %d' % a.ndim)
+
+
 def ndim(x):
     if isinstance(x, SArr):
         return x.ndim
@@ -715,7 +737,7 @@ class _Module:
                  asarray=asarray, asanyarray=asanyarray, array=array, atleast_1d=atleast_1d, atleast_2d=atleast_2d,
                  transpose=transpose, squeeze=squeeze, expand_dims=expand_dims, reshape=reshape, column_stack=column_stack,
                  concatenate=concatenate, vstack=vstack, hstack=hstack, sum=sum, mean=mean, all=all, any=any, argsort=argsort,
-                 argmin=argmin, clip=clip, logical_and=logical_and, logical_or=logical_or, logical_not=logical_not, square=square, cumsum=cumsum, insert=insert, average=average, isfinite=isfinite, isinf=isinf, isnan=isnan, where=where, dot=dot, prod=prod,
+                 argmin=argmin, clip=clip, logical_and=logical_and, logical_or=logical_or, logical_not=logical_not, square=square, count_nonzero=count_nonzero, diag=diag, cumsum=cumsum, insert=insert, average=average, isfinite=isfinite, isinf=isinf, isnan=isnan, where=where, dot=dot, prod=prod,
                  minimum=minimum, maximum=maximum, abs=abs_, absolute=abs_, ndim=ndim, shape=shape, ndarray=ndarray,
                  inf=SReal(INF), pi=_np.pi, newaxis=None, float64=float, int64=int, bool_=bool,
                  )
